@@ -22,6 +22,9 @@ type Deriver struct {
 	fi   *FuncInfo
 	info *types.Info
 	defs map[types.Object][]ast.Expr // expressions an object may derive from
+	// ElementOpaque: x[<constant>] is treated as an atom — deriving from one fixed element of a
+	// collection does not count as deriving from the collection.
+	ElementOpaque bool
 }
 
 // NewPureDeriver follows assignments only (no mutation through call arguments or receivers):
@@ -154,6 +157,13 @@ func (d *Deriver) derives(e ast.Expr, src func(ast.Expr) bool, seen map[types.Ob
 		if src(x) {
 			found = true
 			return false
+		}
+		if d.ElementOpaque {
+			if ix, ok := x.(*ast.IndexExpr); ok {
+				if _, isConst := ConstVal(d.info, ix.Index); isConst {
+					return false
+				}
+			}
 		}
 		if id, ok := x.(*ast.Ident); ok {
 			o := d.info.Uses[id]
